@@ -1098,3 +1098,17 @@ package modfile
 //@     # every request is already served by an old entry or is still in need
 //@     invariant forall d int :: 0 <= d && d < len(req) ==> (has(need, req[d].Mod.Path) && need[req[d].Mod.Path].version == req[d].Mod.Version && need[req[d].Mod.Path].indirect == req[d].Indirect) || (exists i int :: 0 <= i && i < NL && f.Require[i].Mod.Path == req[d].Mod.Path && f.Require[i].Mod.Version == req[d].Mod.Version && f.Require[i].Indirect == req[d].Indirect)
 //@   props C16
+
+//@ # ---------- the quick module-path extractor (C20) ----------
+//@ # a line is taken for the module directive only when, comment stripped and trimmed, it is the word "module"
+//@ # followed by white space (the rest got shorter by trimming) and a non-empty path; the three returns inside
+//@ # the loop are the malformed quoted path, the unquoted path and the bare path
+//@ func ModulePath
+//@   allocates
+//@   ensures site 0 [C20] directive_line_malformed_quote: len(line) > 0 && len(line) < n && result == ""
+//@   ensures site 1 [C20] directive_line_quoted: len(line) > 0 && len(line) < n && (line[0] == '"' || line[0] == '`') && result == p
+//@   ensures site 2 [C20] directive_line_bare: len(line) > 0 && len(line) < n && line[0] != '"' && line[0] != '`' && result == string(line)
+//@   loop 0:
+//@     invariant true
+//@     decreases len(mod)
+//@   props C20
